@@ -35,6 +35,12 @@ CLAIMED = {
  "C17": ("differential/metamorphic property-based testing: two-hop on clone A vs the two single swaps on clone B over two generated pool histories; byte equality of the complete account store; failure equivalences",
          "Every well-formed generated two-hop that succeeds is compared byte for byte (all accounts) with its two single swaps; mismatching intermediates, failing legs, same-pool and no-shared-mint routes and thresholds missed by one must be rejected.",
          NSVM, "DESIGN.md §3 C17"),
+ "C18": ("model-based stateful property testing: generated position lifecycles (4 position kinds, 256 bundle indexes, sentinel bounds) with a model that predicts accept/reject exactly and checks post-conditions on decoded accounts",
+         "Accept/reject of open / close / reset-range / lock / transfer-locked / bundle operations is predicted exactly by a model written from the statement, on every operation of every generated lifecycle; locked positions must refuse decrease / reposition and allow collects; bundle bitmap compared with the model after every op.",
+         NSVM + " Metaplex CPI of *_with_metadata is a stub.", "DESIGN.md §3 C18"),
+ "C19": ("property-based testing: boundary-biased init/set sequences with a bank-wide bounds scan after every instruction; generated Token-2022 mint TLV bytes x badge states offered to the three admitting instructions against the stated admission rule",
+         "Every program-owned parameter account is re-checked against the published bounds after every generated instruction; numeric setters must accept exactly the in-bound values; a pool or reward over a mint the stated rule excludes is a violation (safety direction).",
+         NSVM + " Mint bytes are assembled directly.", "DESIGN.md §3 C19"),
  "C09": ("exhaustive enumeration of all 887,273 ticks + proptest-generated sqrt-prices against an exact-integer oracle",
          "Forward domain decided exhaustively (every tick: monotone, endpoints, exact 2^-32 ratio inequality, inverse at p(t), p(t)±1); inverse domain by generated prices with the bracket oracle p(t)<=x<p(t+1). Search, not proof, for the 2^96-sized price domain.",
          "Trusts that x86-64 and SBF code generation agree on safe integer code.", "DESIGN.md §3 C09"),
